@@ -23,6 +23,8 @@ TRUSTED = [py2lean.trusted_note("pnorm")]
 PROP_FILES = ["PersimVerif/Props/C10.lean", py2lean.prop_file("pnorm")]
 # the bottleneck clause about what the MODELS return (C10 o C09 o C03 against C01)
 PROP_FILES += ["PersimVerif/Props/C10Model.lean"]
+# landscape engine (py2lean_landscape.py): p_norm / sup_norm of both classes, base.p_norm, values_to_pairs, _p_norm around its region
+PROP_FILES += [f for f in py2lean.prop_files("plnorm") if f not in PROP_FILES]
 RULE = ("landscapes built by the real classes from generated diagrams (1-7 bars, one family in twelve 8-30 bars, thorough 8-50; "
         "lattice/half/eighth/decimal/uniform "
         "coordinates, whole diagram rescaled by 2^k, k in {-40,-30,-20,-3,0,3,20,30}; duplicates 15%; diagonal bars in a flagged "
@@ -56,6 +58,7 @@ ASSUMPTIONS = ["critical pairs / grid values are finite floats (no NaN/inf insid
 TRUSTED = ["the compiled driver executable is trusted as compiled by Lean's compiler, not checked by the kernel",
            "the guarded trace persim.landscapes.exact._VERIF_TRACE is only counted (for P1 and P2); a failing stability case is attributed to "
            "the known repeated-bar shortcut by content (harness/props/c03.py oracle + the Lean model of the sweep)"]
+TRUSTED += [py2lean.trusted_note("pnorm"), py2lean.trusted_note("plnorm")]      # the source translators (DESIGN.md 3.2)
 # theorems of Props/C10.lean that carry a clause of the property (closed forms of single branches, helpers, bridges between
 # guards, argument validation and the regression witnesses are excluded)
 CORE_THEOREMS = ["segment_integral", "pnorm_pow_eq_integral", "pnorm_eq_root", "pnorm_pow_nonneg", "sup_eq_max_abs", "supNormExact_eq",
@@ -429,7 +432,7 @@ def helper_pnorm(ctx, p, cps):
 
 def pre_build(ctx):
     """source translator (DESIGN.md 3.2): regenerate Generated/SrcPNorm.lean from PERSIM_ROOT's source"""
-    py2lean.pre_build(ctx, ("pnorm",))
+    py2lean.pre_build(ctx, ("pnorm", "plnorm"))
 
 
 def run(ctx):
@@ -1250,3 +1253,4 @@ MANIFEST = {
     "technique": "Lean 4 theorems (Mathlib interval/Bochner integrals, rpow, Minkowski) over a hand-written model + differential correspondence at Rat/Float + quadrature oracle",
 }
 MANIFEST["note"] += " " + py2lean.manifest_note("pnorm")
+MANIFEST["note"] += " " + py2lean.manifest_note("plnorm")
